@@ -524,6 +524,9 @@ def run(ctx):
     check_fixed(ctx, classes)
     check_variable(ctx, classes)
     check_shadow(ctx)
+    # 0 is an ordinary id / value / address: nothing int-valued may be tested by truthiness (nqsa/truth.py)
+    from .. import truth
+    truth.check(ctx, "C15.Z", ['netqasm.lang.encoding', 'netqasm.backend.messages'])
 
 
 M = "netqasm/backend/messages.py"
